@@ -64,7 +64,13 @@ struct Spec {
 int pred_parked(void *arg) { return vs_thread_waiting((int)(long)arg); }
 int pred_barrier(void *arg) { return vs_cell_get(CELL_BARRIER) >= (long)arg; }
 
+// plain data that the lock is supposed to protect: written inside write sections, read inside read sections.  In the race pass (tsan flavour) a reader that shares
+// the lock with a writer shows up as a data race on it.
+int g_protected;
+void touch_protected(char op) { if (op == 'W') g_protected++; else { volatile int v = g_protected; (void)v; } }
+
 void enter(char op) {
+    touch_protected(op);
     if (op == 'R') {
         long r = vs_cell_add(CELL_READERS, 1);
         (void)r;
@@ -392,6 +398,8 @@ bool provider(const std::string &prop, const std::string &tier, const std::strin
     if (prop == "C12") suite.relevant = [](int o, const std::string &m, const std::string &) { return o == VS_OUT_ORACLE || (o == VS_OUT_DEADLOCK && m.find("harness-wait") != std::string::npos); };
 
     if (prop == "C12") {
+        suite.rule += "; programs marked @all: every schedule without a preemption bound (depth-first, cut off at states reached before); programs marked @once (20/40/60 readers) are far too large to enumerate: "
+                      "their default schedule is executed once, as a plain scenario, and they are not counted as exhaustively explored";
         for (int n = 2; n <= (thorough ? 6 : 5); n++) { Spec s = base; s.scripts.assign(n, "R"); add(suite, s, n <= 4 ? 3 : 2, flavour); }
         { Spec s = base; s.scripts = {"RR", "RR", "R"}; s.guards = true; add(suite, s, 2, flavour); }
         for (int k = 2; k <= (thorough ? 4 : 3); k++) { Spec s = base; s.rendezvous = k; add(suite, s, thorough ? 3 : 2, flavour); s.guards = true; if (k == 2) add(suite, s, 2, flavour); }
@@ -431,6 +439,7 @@ bool provider(const std::string &prop, const std::string &tier, const std::strin
         return true;
     }
 
+    suite.rule += "; programs marked @all: every schedule without a preemption bound (depth-first, cut off at states reached before, oracles kept online in the state)";
     // C01 / C02 / C03 share the lock-unlock program family
     // two threads, one section each: the bound is beyond the number of possible preemptions, i.e. ALL schedules are explored
     for (auto &v : sequences(2, {"R", "W"})) { Spec s = base; s.scripts = v; add(suite, s, 12, flavour); }
